@@ -93,7 +93,7 @@ class UnitTwin(sim.TwinHarness):
         self._thr_unit = None
         a = self._run_one(env, self.schedule_a)
         A = self.assignment
-        self.units = {k: A[k] for k in ('J', 'w0', 'Tmax', 'i') if k in A}
+        self.units = {k: A[k] for k in ('J', 'w0', 'Tmax', 'i', 'i0u', 'imaxu') if k in A}
         self.init_units = {k: A[k] for k in ('pos', 'spd') if k in A}
         self.dt_unit = A.get('dt', 'sec')
         self._thr_unit = A.get('thr')
@@ -242,6 +242,14 @@ def specs(tier, seed):
             S.append(('twin', t, _assignment(rnd), (('run', 2), ('run', 2)), None, None))
     if tier == 'thorough':
         S.append(('twin', 'T1', _assignment(rnd), (('run', 2),), ('arb', -1, 1), None))
+    # the two motor currents in two different units; duty cycles inside (|D| <= i0/imax = 0.125) and outside the dead zone
+    # (concrete: a symbolic duty cycle multiplies the symbolic state - probe: no answer within 15 min)
+    for (u0, um) in ((('mA', 'A'),) if tier == 'quick' else (('mA', 'A'), ('A', 'uA'), ('uA', 'mA'))):
+        for d in (0.0625, -0.09375, 0.5):
+            a = dict(_assignment(rnd))
+            a.pop('i', None)
+            a.update(i0u=u0, imaxu=um)
+            S.append(('twin', 'T3', tuple(sorted(a.items())), (('run', 2),), ('fixed', d), 'currents_%s_%s' % (u0, um)))
     # a continuation whose dt and T are expressed in another time unit than the first run
     for u in (('ms', 'min') if tier == 'quick' else ('ms', 'min', 'hour')):
         a = dict(_assignment(rnd))
@@ -270,7 +278,7 @@ def build(sp):
 JOB_CAP = {'quick': 900, 'thorough': 3000}
 REQUIRED_TRIGGERS = {'quick': ('same.number_of_instants', 'same.time', 'same.history', 'pa.same_outcome_in_every_unit')}
 BOUNDS = {
-    'quick': 'twin simulations (K=2; continuation 2+2 with the second run in ms / min; early stop with the threshold in another unit) on '
+    'quick': 'twin simulations (K=2; continuation 2+2 with the second run in ms / min; early stop with the threshold in another unit; the two motor currents in two different units with duty cycles 1/16, -3/32 (inside the dead zone) and 1/2) on '
              'T1/T3/T6 with 4 seeded assignments of a non-SI unit to every input quantity (inertias, no-load speed, maximum torque, '
              'currents, initial position and speed, dt and T, sensor threshold); initial position |.| <= 1e3 rad, initial speed |.| <= 1 rad/s, loads |.| <= 1 mNm (a region where the motor torque keeps its sign), duty '
              'cycle and threshold symbolic; worm gear / worm wheel construction with each of the four pressure angles given in rad, arcmin, arcsec, rot '
